@@ -291,7 +291,11 @@ class Cfg:
     sym_rtol: relative tolerance for symbolic / register arguments.
     """
 
-    def __init__(self, numbers="exact", rtol=1e-9, sym_rtol=1e-9, seed="cmp", array_dtype=True, atol=0.0):
+    def __init__(self, numbers="exact", rtol=1e-9, sym_rtol=1e-9, seed="cmp", array_dtype=True, atol=0.0, mixed_sym=False):
+        # mixed_sym: a symbolic value may be compared with a plain number or with a symbolic value over other
+        # symbols; both are evaluated at generic points of the union of their symbols (used where a parameter
+        # cancels identically, so that the implementation is free to deliver a constant expression or a number)
+        self.mixed_sym = mixed_sym
         self.numbers = numbers
         self.rtol = rtol
         self.atol = atol
@@ -386,6 +390,15 @@ def diff_values(a, b, path, cfg, out):
         else:
             if not _num_close(a, b, cfg.rtol, cfg.atol):
                 out.append((path, "number-close:%s/%s" % (ka, kb), show(a), show(b)))
+        return
+    if cfg.mixed_sym and "sym" in (ka, kb) and ka in numeric + ("sym",) and kb in numeric + ("sym",) and "bool" not in (ka, kb):
+        names = set()
+        for v in (a, b):
+            if kind(v) == "sym":
+                names |= {str(s) for s in v.free_symbols}
+        fa = (lambda pt: eval_sym(a, pt)) if ka == "sym" else (lambda pt: complex(a))
+        fb = (lambda pt: eval_sym(b, pt)) if kb == "sym" else (lambda pt: complex(b))
+        _sym_agree(fa, fb, names, cfg, path, out, "mixed")
         return
     if ka != kb:
         # a symbolic value that has become a plain number (or the reverse) is a kind change
